@@ -527,31 +527,49 @@ Proof. exact nodup_example. Qed.
    vn_frequencies_valid && vn_frequencies > 0 (vn_ranged; TableSpec.in_range), vnacal_new_solve has
    nothing to solve and succeeds, a solved unknown is left without a value, the calibration has no
    fmin / fmax.  All theorems above are about this model. *)
-Theorem c16_zero_points_setfreq_accepted : forall s id v f0,
-  st_freed s = false -> get_new s id = Some v -> vn_nf v = 0 ->
-  step s (OSetFreq id f0)
-  = (with_new s (st_pt s) id (Some (mkVN (vn_type v) (vn_dim v) (vn_nf v) true f0 (vn_params v) (vn_unknowns v)
-                                         (vn_meas v) (vn_cal v))), ok_int 0).
-Proof. exact zero_points_setfreq. Qed.
-Print Assumptions c16_zero_points_setfreq_accepted.
+(* What follows for a vnacal_new_t without frequency points (the three one-step facts - set_frequency_vector
+   accepts every start value, in_range holds for every parameter, solve answers 0 for every oracle bit - are
+   unfoldings of the model, lemmas zero_points_setfreq / _in_range / _solve of CalTab/CalTabParams.v, and are
+   tied by the directed scenario zero_frequencies; the theorems here are their consequences):
+   a standard naming ANY visible scalar / vector / unknown handles (whatever frequency ranges the vector
+   parameters cover) or handles already held is ADDED - validation pass and registration of every cell, through
+   the specification [acceptable] and c16_acceptable_standard_added - before and after set_frequency_vector. *)
+Theorem c16_zero_points_any_range_accepted : forall s id v hs ms,
+  Inv s -> st_freed s = false -> get_new s id = Some v -> vn_nf v = 0 ->
+  (forall h, In h hs -> ((0 <= h)%Z /\ In (Z.to_nat h) (vn_params v)) \/
+                        exists n p, get_param (st_pt s) h = Some (n, p) /\ forall o sv, p_kind p <> KCorrelated o sv) ->
+  exists s' v', step s (OAddStd id hs ms) = (s', ok_int 0) /\ get_new s' id = Some v' /\
+                vn_meas v' = vn_meas v ++ [mkMeas (map Z.to_nat hs) ms].
+Proof. exact zero_points_standard_added. Qed.
+Print Assumptions c16_zero_points_any_range_accepted.
 
-Theorem c16_zero_points_no_range_requirement : forall t v n, vn_nf v = 0 -> in_range t v n.
-Proof. exact zero_points_in_range. Qed.
-Print Assumptions c16_zero_points_no_range_requirement.
-
-Theorem c16_zero_points_solve_succeeds : forall s id v b,
+(* the calibration solved by a zero-point vnacal_new_t has no frequency range: cal_frange = None, which is
+   what the driver prints and the harness accepts only when BOTH vnacal_get_fmin and vnacal_get_fmax answer
+   HUGE_VAL with errno EINVAL *)
+Theorem c16_zero_points_calibration_no_range : forall s id v b s' out,
   st_freed s = false -> get_new s id = Some v -> vn_nf v = 0 -> vn_fvalid v = true ->
-  snd (step s (OSolve id b)) = ok_int 0.
-Proof. exact zero_points_solve. Qed.
-Print Assumptions c16_zero_points_solve_succeeds.
+  step s (OSolve id b) = (s', out) ->
+  exists v' c, get_new s' id = Some v' /\ vn_cal v' = Some c /\ cal_frange c = None.
+Proof. exact zero_points_calibration_no_range. Qed.
+Print Assumptions c16_zero_points_calibration_no_range.
 
+(* reachable instance of ALL the hypotheses: after `mkv 5 6; nalloc nf=0; setf -5` the vnacal_new_t has
+   vn_nf = 0 AND vn_fvalid = true (f0 = -5), handle 3 is a visible vector over 5..6; the whole script answers
+   0 everywhere and the calibration it adds has no range *)
 Example c16_zero_points_satisfiable :
   map o_ret (snd (run st_initial zero_script))
   = [RInt 3; RPtr true; RInt 0; RInt 0; RInt 0; RInt 0; RCal 1 0 1 1 0 (-5) (-6)] /\
-  exists v, get_new (run_state (firstn 2 zero_script)) 0 = Some v /\ vn_nf v = 0 /\ vn_fvalid v = false.
+  (let s := run_state (firstn 3 zero_script) in
+   Inv s /\ st_freed s = false /\
+   exists v, get_new s 0 = Some v /\ vn_nf v = 0 /\ vn_fvalid v = true /\ vn_f0 v = (-5)%Z /\
+             exists n p, get_param (st_pt s) 3 = Some (n, p) /\ p_kind p = KVector [5; 6]%Z [(10, 0); (20, 0)]%Z) /\
+  (exists c, nth 0 (st_cals (run_state zero_script)) None = Some c /\ c_nf c = 0%Z /\ cal_frange c = None).
 Proof. exact zero_example. Qed.
 
-(* c16_values_vector: the value of a vector parameter at EVERY frequency of its extrapolation band.
+(* c16_values_vector: the value of a vector parameter at every INTEGER frequency of its extrapolation band,
+   for the numbers of the C16 model: integer knot frequencies, values that are multiples of 1/64 (exact
+   rationals).  Non-integer query frequencies and arbitrary binary64 values are property C10's (rfi model over
+   Q / qi, stated there for all rationals); the floating-point rounding of _vnacal_rfi is in neither.
    get_value_q (CalTab/CalTabVectorModel.v) = _vnacal_rfi of property C10 (Interp/RfiModel.v, imported)
    over the supplied points with order min(n, VNACAL_MAX_M), EPS and the cut-off as regenerated from the
    C text.  For the handle z a successful make_vector returns and every f inside the band:
@@ -571,6 +589,17 @@ Theorem c16_values_vector : forall s fs gs fl s' z f,
 Proof. exact values_vector_l. Qed.
 Print Assumptions c16_values_vector.
 
+(* ... and the number survives every history that neither deletes the handle nor frees the vnacal_t (for an
+   off-knot frequency c16_values_stable_while_live only says RInterp = RInterp) *)
+Theorem c16_values_q_stable_while_live : forall ops s h p,
+  Inv s -> st_freed s = false ->
+  slot (st_pt s) h = Some p -> p_deleted p = false -> other_of (p_kind p) = None ->
+  Forall (not_free_or_delete h) ops ->
+  let s' := fst (run s ops) in
+  forall f, get_value_q (st_pt s') (Z.of_nat h) f = get_value_q (st_pt s) (Z.of_nat h) f.
+Proof. exact value_q_stable_run. Qed.
+Print Assumptions c16_values_q_stable_while_live.
+
 Example c16_values_vector_satisfiable :
   exists s', step st_initial (OMakeVector [1; 3; 6]%Z [(64, 0); (32, 0); (16, 64)]%Z 0) = (s', ok_int 3) /\
              out_of_band [1; 3; 6] 2 = false /\ index_of 2 [1; 3; 6] = None /\
@@ -578,3 +607,10 @@ Example c16_values_vector_satisfiable :
              (exists v, get_value_q (st_pt s') 3 2 = Some v) /\
              get_value_q (st_pt s') 3 3 = Some (qval (32, 0)).
 Proof. exact values_vector_example. Qed.
+
+(* SCOPE NOTE (review round 2): correlated parameters are modelled with a NULL sigma frequency vector only.
+   vnacal_make_correlated_parameter called with its own sigma_frequency_vector (non-negative / ascending /
+   disjointness tests, and the clamp of the parameter's frequency range by that grid in
+   _vnacal_get_parameter_frange) is outside CalTabModel: c16_rejected_standard_unchanged,
+   c16_acceptable_standard_added, TableSpec.acceptable / in_range and c16_walks_terminate's "frange = range_of
+   (chain end)" are statements about parameters made with sigma_frequency_vector = NULL. *)
